@@ -10,7 +10,10 @@ import (
 	"bytes"
 	"encoding/hex"
 	"fmt"
+	"sort"
 	"testing"
+
+	"github.com/gmrtd/gmrtd/document"
 
 	"pgregory.net/rapid"
 
@@ -155,6 +158,17 @@ type injector struct {
 	Changed   bool
 	MaxCalls  int
 	Exhausted bool
+	// Absence: a fault fired that a reader cannot tell from "the chip says this file does not
+	// exist": the status 6A82 / 6283 on a SELECT sent without secure messaging.  (With several
+	// faults in one read a silently missing file is attributed to such a fault if one fired.)
+	Absence bool
+}
+
+func (in *injector) noteFault(fk int, cla, ins int) {
+	name := faultKinds[fk].name
+	if (name == "sw-6a82" || name == "sw-6283") && cla&0x0C == 0 && ins == 0xA4 {
+		in.Absence = true
+	}
 }
 
 func (in *injector) Transceive(cla int, ins int, p1 int, p2 int, data []byte, le int, encoded []byte) []byte {
@@ -170,6 +184,7 @@ func (in *injector) Transceive(cla int, ins int, p1 int, p2 int, data []byte, le
 		out := faultKinds[fk].apply(nil, in.prev)
 		in.Fired = append(in.Fired, fmt.Sprintf("%d:%s", idx, faultKinds[fk].name))
 		in.Changed = true
+		in.noteFault(fk, cla, ins)
 		in.prev = out
 		return out
 	}
@@ -180,6 +195,7 @@ func (in *injector) Transceive(cla int, ins int, p1 int, p2 int, data []byte, le
 		in.Fired = append(in.Fired, fmt.Sprintf("%d:%s", idx, faultKinds[fk].name))
 		if !bytes.Equal(out, g) {
 			in.Changed = true
+			in.noteFault(fk, cla, ins)
 		}
 	}
 	in.prev = out
@@ -189,6 +205,25 @@ func (in *injector) Transceive(cla int, ins int, p1 int, p2 int, data []byte, le
 type baseline struct {
 	p         *persona.Persona
 	exchanges int
+	files     map[string]bool // files of the fault-free result
+	steps     map[string]bool // steps successful in the fault-free read
+}
+
+// stepVector: which steps are recorded successful, and which carry a recorded failure.
+func stepVector(s *document.Session) (ok map[string]bool, failed map[string]bool) {
+	ok, failed = map[string]bool{}, map[string]bool{}
+	set := func(name string, present, success bool, err error) {
+		ok[name] = present && success
+		failed[name] = err != nil || (present && !success)
+	}
+	set("PACE", s.PaceResult != nil, s.PaceResult != nil && s.PaceResult.Success, s.PaceErr)
+	set("BAC", s.BacResult != nil, s.BacResult != nil && s.BacResult.Success, s.BacErr)
+	set("PACE-CAM", s.PaceCamResult != nil, s.PaceCamResult != nil && s.PaceCamResult.Success, nil)
+	set("AA", s.ActiveAuthResult != nil, s.ActiveAuthResult != nil && s.ActiveAuthResult.Success, s.ActiveAuthErr)
+	set("CA", s.ChipAuthResult != nil, s.ChipAuthResult != nil && s.ChipAuthResult.Success, s.ChipAuthErr)
+	set("PA", s.PassiveAuthResult != nil, s.PassiveAuthResult != nil && s.PassiveAuthResult.Success, s.PassiveAuthErr)
+	set("completeness", true, s.DocumentVerifyErr == nil, s.DocumentVerifyErr)
+	return ok, failed
 }
 
 func faultFree(t *testing.T, c config) *baseline {
@@ -211,7 +246,12 @@ func faultFree(t *testing.T, c config) *baseline {
 	if s := r.DocEx.Summary(); !s.DataTrusted {
 		evid.Infra(t, "fault-free read of %s is not trusted", c.name)
 	}
-	return &baseline{p: p, exchanges: in.n}
+	b := &baseline{p: p, exchanges: in.n, files: map[string]bool{}}
+	for name := range readcheck.DocFiles(&r.DocEx.Document) {
+		b.files[name] = true
+	}
+	b.steps, _ = stepVector(&r.DocEx.Session)
+	return b
 }
 
 // runFaulted performs one read with the given fault plan and applies the oracle.
@@ -269,9 +309,46 @@ func runFaulted(t interface {
 			evid.Fail(t, check+"-trust", rep, "data trusted without a security object")
 		}
 	}
-	// 4. a read that reports no error must be complete and correct in its verdicts
+	// 4. "the read ends with an error or with that step recorded as failed": a read that reports no
+	// error after a fault changed what was delivered must either record a step as failed that the
+	// fault-free read completed, or have absorbed the fault entirely (same files, same step
+	// outcomes - a retry, or a damaged octet nobody depends on).  A result that silently lacks a
+	// file or a step is a violation.  The one exception a reader cannot avoid: the status "file
+	// not found" (6A82 / 6283) on a SELECT sent before any secure channel exists is
+	// indistinguishable from a chip that does not store that file.
 	if r.Err == nil && in.Changed {
 		evid.Count("completed-despite-fault", 1)
+		ok, failed := stepVector(&r.DocEx.Session)
+		var newlyFailed, missingSteps, missingFiles []string
+		for name, was := range b.steps {
+			if was && !ok[name] {
+				if failed[name] {
+					newlyFailed = append(newlyFailed, name)
+				} else {
+					missingSteps = append(missingSteps, name)
+				}
+			}
+		}
+		got := readcheck.DocFiles(&r.DocEx.Document)
+		for name := range b.files {
+			if _, have := got[name]; !have {
+				missingFiles = append(missingFiles, name)
+			}
+		}
+		sort.Strings(newlyFailed)
+		sort.Strings(missingSteps)
+		sort.Strings(missingFiles)
+		switch {
+		case len(newlyFailed) > 0:
+			evid.Count("fault-recorded-as-failed-step", 1)
+		case len(missingFiles) == 0 && len(missingSteps) == 0:
+			evid.Count("fault-absorbed", 1)
+		case in.Absence:
+			evid.Count("fault-indistinguishable-from-absent-file", 1)
+		default:
+			rep["missingFiles"], rep["stepsSilentlyMissing"] = missingFiles, missingSteps
+			evid.Fail(t, check+"-silent", rep, "the read reports no error and no failed step, yet the result lacks files %v / steps %v that the fault-free read of the same chip delivers", missingFiles, missingSteps)
+		}
 	}
 	if r.Err != nil {
 		evid.Count("ended-with-error", 1)
